@@ -43,6 +43,15 @@ func TestReplay(t *testing.T) {
 	if p == "" {
 		t.Skip("no VERIF_REPLAY")
 	}
+	var aw struct {
+		ArmRace *ArmCase `json:"armrace"`
+	}
+	if _, err := ev.LoadReplay(p, &aw); err == nil && aw.ArmRace != nil {
+		for i := 0; i < 200; i++ {
+			checkArm(t, "TestReplay", *aw.ArmRace)
+		}
+		return
+	}
 	var c rx.Case
 	if _, err := ev.LoadReplay(p, &c); err != nil {
 		t.Fatalf("harness: cannot load replay: %v", err)
